@@ -20,57 +20,302 @@ class FramesTail:
     """Zero or more retransmissions / gap fills written by _process_resend (no new number)."""
 
 
+# ---------------------------------------------------------------------------
+# _process_resend as a callee: ONE relation, used twice
+#   - contract_process_resend (below) havocs what the function may change and assumes the relation: this is what the
+#     dispatcher proofs (C04 C09 C11 C12 C14) see at the call site;
+#   - C06's task refinement[_process_resend] runs the REAL body from every state the dispatcher can call it in and
+#     proves that each of its paths satisfies the relation for one of the four kinds of outcome.
+# So the callee contract is a proved over-approximation of the code, not an assumption.
+# ---------------------------------------------------------------------------
+
+RESEND_KINDS = ("ignored", "served", "failed_before", "failed_midway")
+# hooks a resend may run: the state-change notifications and the per-row question to the application
+RESEND_EVENTS = ("on_state_change", "should_replay", "loop_events", "resend_served")
+# the states the dispatcher can be in at the call site: connected (writer present) - everything from
+# NETWORK_CONN_ESTABLISHED up; which of them it really is in is the dispatcher proofs' business
+RESEND_CALL_STATES = list(range(6, 19))
+
+
+def _same(a, b):
+    if a is None or b is None:
+        return a is None and b is None
+    if isinstance(a, bool) and isinstance(b, bool):
+        return a == b
+    return Eq(a, b)
+
+
+def resend_kind_clauses(kind, pre, post, m, k0):
+    """What a caller may rely on after _process_resend(m) for the given kind of outcome; pre / post are views
+    (session_common.eview), k0 the probe number of the journal-row clauses."""
+    A, H, ACT = sc.ST["RESENDREQ_AWAITING"], sc.ST["RESENDREQ_HANDLING"], sc.ST["ACTIVE"]
+    awaiting = Eq(pre.st, A)
+    new = post.W[len(pre.W):]
+    ev = post.EV[len(pre.EV):]
+    b = m.ival("7")
+    out_same = SBool(z3.Select(post.out_rows, k0.t) == z3.Select(pre.out_rows, k0.t))
+    in_same = SBool(z3.Select(post.in_rows, k0.t) == z3.Select(pre.in_rows, k0.t))
+    n_sc = len([e for e in ev if e == "on_state_change"])
+    in_kept = And(in_same, Eq(post.J_in, pre.J_in))
+    in_rewritten = And(Eq(post.J_in, pre.nin - 1),
+                       SBool(z3.Select(post.in_rows, k0.t) == z3.And(z3.Select(pre.in_rows, k0.t), k0.t < _t(pre.nin))))
+    cl = [
+        # -- every kind: the inbound side, the delivered trace, the transport and the heartbeat bookkeeping are not
+        #    touched; whatever is written is resend traffic (no new number, no ResendRequest)
+        ("inbound_counter_untouched", And(Eq(post.nin, pre.nin), Eq(post.maxrs, pre.maxrs))),
+        # Journaler.set_seq_num always writes both stored counters and purges both directions: a served request
+        # leaves the stored inbound counter at next_num_in - 1 and no inbound row at or above next_num_in (which is
+        # "unchanged" only for a pre-state with stored = live - 1)
+        ("stored_inbound_side", in_kept if kind in ("ignored", "failed_before") else in_rewritten),
+        ("nothing_delivered", len(post.A) == len(pre.A)),
+        ("transport_kept", post.writer == pre.writer and post.reader == pre.reader and post.closed == pre.closed),
+        ("bookkeeping_kept", And(_same(post.R, pre.R), _same(post.L, pre.L), Eq(post.role, pre.role))),
+        # whatever is written is resend traffic: SequenceReset-GapFills and retransmitted application messages - no
+        # session-level message (every caller reads the opaque tail of frames that way) ...
+        ("traffic_no_session_message",
+         And(*[True if f.opaque else Or(Eq(f.type, "4"), Not(Or(*[Eq(f.type, t) for t in SESSION_TYPES]))) for f in new])),
+        # ... and none of it takes a new sequence number (needed where outbound numbers matter: C09, C14)
+        ("traffic_no_new_number", And(*[True if f.opaque else (f.new is False) for f in new])),
+        ("no_session_callbacks", all(e in RESEND_EVENTS for e in ev)),
+        ("counter_stays_positive", post.nout >= 1),
+        ("no_row_at_or_above_counter", Implies(k0 >= post.nout, Not(has_row(post, "out", k0)))),
+    ]
+    untouched = [("state_kept", Eq(post.st, pre.st)), ("was_active_kept", _same(post.was_active, pre.was_active)),
+                 ("counter_kept", Eq(post.nout, pre.nout)), ("stored_counter_kept", Eq(post.J_out, pre.J_out)),
+                 ("rows_kept", out_same), ("nothing_written", len(new) == 0), ("no_state_change", n_sc == 0)]
+    if kind == "ignored":
+        cl += [("returns", post.outcome == "ret")] + untouched
+    elif kind == "failed_before":
+        cl += [("raises_exception", post.outcome.startswith("raise:") and post.outcome != "raise:CancelledError")] + untouched
+    elif kind == "served":
+        cl += [
+            ("returns", post.outcome == "ret"),
+            ("request_was_valid", And(m.has("7"), m.int_ok("7"), b >= 1, b < pre.nout)),
+            ("state_after", And(Implies(awaiting, Eq(post.st, pre.st)), Implies(Not(awaiting), Eq(post.st, ACT)))),
+            ("was_active_after", And(Implies(awaiting, _same(post.was_active, pre.was_active)),
+                                     Implies(Not(awaiting), _same(post.was_active, True)))),
+            ("counter_kept", Eq(post.nout, pre.nout)),
+            ("stored_counter_follows", Eq(post.J_out, pre.nout - 1)),
+            ("rows_outside_range_kept", Implies(Or(k0 < b, k0 >= pre.nout), out_same)),
+        ]
+    elif kind == "failed_midway":
+        cl += [
+            ("raises_exception", post.outcome.startswith("raise:") and post.outcome != "raise:CancelledError"),
+            ("state_after", And(Implies(awaiting, Eq(post.st, pre.st)), Implies(Not(awaiting), Eq(post.st, H)))),
+            ("was_active_kept", _same(post.was_active, pre.was_active)),
+        ]
+    else:
+        raise ValueError(kind)
+    return cl
+
+
+def resend_kind_formula(kind, pre, post, m, k0, needs=None):
+    """conjunction of the structural clauses and of the scalar clauses in `needs` (default: all); a structurally
+    false clause makes it False"""
+    parts = []
+    for n, c in resend_kind_clauses(kind, pre, post, m, k0):
+        if needs is not None and n not in RESEND_STRUCTURAL and n not in needs:
+            continue
+        if isinstance(c, bool):
+            if not c:
+                return False
+            continue
+        parts.append(c)
+    return And(*parts) if parts else True
+
+
+# clauses about lists / object presence: always part of the contract (their fields are not havocked)
+RESEND_STRUCTURAL = ("nothing_delivered", "transport_kept", "traffic_no_session_message", "no_session_callbacks", "returns",
+                     "raises_exception", "nothing_written", "no_state_change")
+SESSION_TYPES = ("A", "5", "2", "0", "1", "4")
+# clauses over scalar state: a caller names the ones its proof needs; the fields of the others are havocked, so a proof
+# that goes through does not depend on them - and the caller's run proves only the needed ones on the real body
+# (a change to _process_resend that breaks only clauses a property does not need raises no alarm for that property)
+RESEND_SCALAR = ("inbound_counter_untouched", "stored_inbound_side", "bookkeeping_kept", "counter_stays_positive",
+                 "no_row_at_or_above_counter", "state_kept", "state_after", "was_active_kept", "was_active_after",
+                 "counter_kept", "stored_counter_kept", "stored_counter_follows", "rows_kept", "rows_outside_range_kept",
+                 "request_was_valid",
+                 # (a clause over the written frames, not over a scalar: nothing to havoc - a caller that does not
+                 #  name it must not read the `new` attribute of the opaque tail, and none of those does)
+                 "traffic_no_new_number")
+RESEND_ALL = frozenset(RESEND_SCALAR)
+# what each caller's dispatcher proof needs of the scalar clauses (determined by tools/resend_needs.py: every clause
+# dropped in turn, then all droppable ones together; the proofs below go through with exactly these)
+RESEND_NEEDS = {
+    # gap bookkeeping (state, expected number, watermark), the stored inbound side for _finalize_message and the
+    # outbound half of the invariants I1 / I3 that C04 carries for A-IND
+    "C04": frozenset(["inbound_counter_untouched", "stored_inbound_side", "state_kept", "state_after",
+                      "counter_stays_positive", "no_row_at_or_above_counter"]),
+    # live = stored for the inbound counter after the call (the outbound one is C09's sync[process_resend] task)
+    "C09": frozenset(["inbound_counter_untouched", "stored_inbound_side", "state_kept", "state_after",
+                      "traffic_no_new_number"]),
+    # the role changes only on the first message; connected / disconnected bookkeeping
+    "C11": frozenset(["bookkeeping_kept", "state_kept", "state_after"]),
+    # a pending TestReqID and the last-message clock are not touched by serving a ResendRequest
+    "C12": frozenset(["bookkeeping_kept"]),
+    # the monitor of C14 havocs shared state at every suspension point itself: only the structural clauses are used
+    "C14": frozenset(["traffic_no_new_number"]),
+}
+# the clauses of C06's loop invariant (ResendLoop.inv) each caller's refinement task needs to carry its clauses through
+# the replay loop (tools/resend_needs.py --inv: every invariant clause dropped in turn); None = all
+RESEND_INV = {
+    "C04": frozenset(["state_kept", "gap_bounds_from_begin", "gap_bounds_first", "gap_bounds_behind_previous_row",
+                      "no_row_from_gap_begin_on"]),
+    "C09": frozenset(["state_kept", "gap_bounds_from_begin", "gap_bounds_first", "gap_begin_not_past_next_row"]),
+    "C11": frozenset(["state_kept", "gap_bounds_from_begin", "gap_bounds_first", "gap_begin_not_past_next_row"]),
+    "C12": frozenset(["gap_bounds_from_begin", "gap_bounds_first", "gap_begin_not_past_next_row"]),
+    "C14": frozenset(["gap_bounds_from_begin", "gap_bounds_first", "gap_begin_not_past_next_row"]),
+}
+
+
+def make_resend_contract(needs=RESEND_ALL):
+    needs = frozenset(needs)
+    assert needs <= RESEND_ALL, sorted(needs - RESEND_ALL)
+
+    def contract(I, args, kwargs):
+        return _contract_process_resend(I, args, kwargs, needs)
+    contract.needs = needs
+    return contract
+
+
 def contract_process_resend(I, args, kwargs):
-    """C06 as a callee contract: replies are retransmissions and gap fills only (no new sequence
-    number, no ResendRequest), next outbound number and stored counter unchanged, journal rows
-    below BeginSeqNo and at/above the next outbound number unchanged, state restored."""
+    return _contract_process_resend(I, args, kwargs, RESEND_ALL)
+
+
+def _contract_process_resend(I, args, kwargs, needs):
+    """_process_resend at a call site: havoc what it may change, assume the clauses of the relation above that the
+    caller needs (proved on the real body by the task refinement[_process_resend] of the caller's own run)."""
+    from pyvc.core import SEnum, SReal
     conn, msg = args[0], args[1]
-    g = I.ctx.ghost
+    c = I.ctx
+    g = c.ghost
     CS = I.repo.get("asyncfix.connection.ConnectionState")
-    st = conn.f["_connection_state"]
-    stv = SInt(st.t) if hasattr(st, "t") else st.value
-    g["W"].append(FramesTail())
-    g["EV"].append(("resend_served", ()))
+    CR = I.repo.get("asyncfix.connection.ConnectionRole")
     g["resend_contract_used"] = True
     jr = conn.f["_journaler"]
     sess = conn.f["_session"]
-    awaiting = I.ctx.branch(Eq(stv, sc.ST["RESENDREQ_AWAITING"]))
-    if I.ctx.branch(I.ctx.fresh_bool("resend_fails")):
-        # the real function can stop half way (unparsable / missing BeginSeqNo or EndSeqNo, BeginSeqNo <= 0 or
-        # beyond the last number sent, a journal row that does not decode, send refused ...): the state stays
-        # RESENDREQ_HANDLING, the outbound counter is whatever the rewind left (>= 1, rows only below it)
-        if not awaiting:
-            conn.f["_connection_state"] = I.class_attr(CS, "RESENDREQ_HANDLING")
-            g["EV"].append(("on_state_change", ()))
-        nout2 = I.ctx.fresh_int("nout_after_failed_resend")
-        I.ctx.assume(nout2 >= 1)
-        sess.f["next_num_out"] = nout2
-        jr.f["J_out"] = I.ctx.fresh_int("J_out_after_failed_resend")
-        rows2 = z3.Array(I.ctx.fresh_name("out_rows_after_failed_resend"), z3.IntSort(), z3.BoolSort())
-        k0 = g.get("k0")
-        if k0 is not None:
-            I.ctx.assume(Implies(k0 >= nout2, SBool(z3.Not(z3.Select(rows2, k0.t)))))
-        jr.f["out_rows"] = rows2
-        I.raise_("AssertionError")
-    if not awaiting:
-        conn.f["_connection_state"] = I.class_attr(CS, "ACTIVE")
-        conn.f["_connection_was_active"] = True
-        g["EV"].append(("on_state_change", ()))
-        g["EV"].append(("on_state_change", ()))
-    jr = conn.f["_journaler"]
-    rows = jr.f["out_rows"]
-    new_rows = z3.Array(I.ctx.fresh_name("out_rows_after_resend"), z3.IntSort(), z3.BoolSort())
-    b = sc.msg_int(I, "m", "7")
     k0 = g.get("k0")
-    nout = conn.f["_session"].f["next_num_out"]
-    if k0 is not None:
-        I.ctx.assume(Implies(Or(k0 < b, k0 >= nout), SBool(z3.Select(new_rows, k0.t) == z3.Select(rows, k0.t))))
-    jr.f["out_rows"] = new_rows
+    if k0 is None:
+        k0 = c.inp_int("k0")
+    pre = sc.eview(I, conn)
+    m = sc.emsg(I, "m", register=("7", "16"))
+    fails = c.branch(c.fresh_bool("resend_fails"))
+    if fails:
+        kind = "failed_before" if c.branch(c.fresh_bool("resend_fails_before_any_effect")) else "failed_midway"
+    else:
+        kind = "ignored" if c.branch(c.fresh_bool("resend_request_ignored")) else "served"
+    effect = kind in ("served", "failed_midway")
+    assigned = set()  # clauses whose fields are set to the pinned value (checked as obligations, not assumed)
+
+    def fresh_array(hint):
+        return z3.Array(c.fresh_name(hint), z3.IntSort(), z3.BoolSort())
+
+    # -- connection state / was_active
+    st_pin = "state_after" if effect else "state_kept"
+    wa_pin = "was_active_after" if kind == "served" else "was_active_kept"
+    awaiting = c.branch(Eq(pre.st, sc.ST["RESENDREQ_AWAITING"])) if effect else None
+    if st_pin in needs:
+        assigned.add(st_pin)
+        if effect and not awaiting:
+            conn.f["_connection_state"] = I.class_attr(CS, "ACTIVE" if kind == "served" else "RESENDREQ_HANDLING")
+    else:
+        s2 = c.fresh_int("st_after_resend")
+        c.assume(And(s2 >= 0, s2 <= 18))
+        conn.f["_connection_state"] = SEnum(CS, s2.t)
+    if wa_pin in needs:
+        assigned.add(wa_pin)
+        if kind == "served" and not awaiting:
+            conn.f["_connection_was_active"] = True
+    else:
+        conn.f["_connection_was_active"] = c.fresh_bool("was_active_after_resend")
+    if effect:
+        if not awaiting:
+            g["EV"].append(("on_state_change", ()))
+            if kind == "served":
+                g["EV"].append(("on_state_change", ()))
+        g["W"].append(FramesTail())
+        g["EV"].append(("resend_served", ()))
+    # -- outbound counter, stored outbound counter, outbound rows
+    if kind != "failed_midway" and "counter_kept" in needs:
+        assigned.add("counter_kept")
+    else:
+        sess.f["next_num_out"] = c.fresh_int("nout_after_resend")
+    if not effect and "stored_counter_kept" in needs:
+        assigned.add("stored_counter_kept")
+    else:
+        jr.f["J_out"] = c.fresh_int("J_out_after_resend")
+    if not effect and "rows_kept" in needs:
+        assigned.add("rows_kept")
+    else:
+        jr.f["out_rows"] = fresh_array("out_rows_after_resend")
+    # -- stored inbound side (the relation is proved for an arbitrary probe number, i.e. for every number: the array
+    #    is the one set_seq_num leaves)
+    if "stored_inbound_side" in needs:
+        assigned.add("stored_inbound_side")
+        if effect:
+            kk = z3.Int("k!lam")
+            jr.f["J_in"] = pre.nin - 1
+            jr.f["in_rows"] = z3.Lambda([kk], z3.And(z3.Select(pre.in_rows, kk), kk < _t(pre.nin)))
+    else:
+        jr.f["J_in"] = c.fresh_int("J_in_after_resend")
+        jr.f["in_rows"] = fresh_array("in_rows_after_resend")
+    # -- live inbound counter and resend watermark
+    if "inbound_counter_untouched" in needs:
+        assigned.add("inbound_counter_untouched")
+    else:
+        sess.f["next_num_in"] = c.fresh_int("nin_after_resend")
+        conn.f["_max_seq_num_resend"] = c.fresh_int("maxrs_after_resend")
+    # -- heartbeat bookkeeping and role
+    if "bookkeeping_kept" in needs:
+        assigned.add("bookkeeping_kept")
+    else:
+        conn.f["_test_req_id"] = c.fresh_int("R_after_resend") if c.branch(c.fresh_bool("has_R_after_resend")) else None
+        conn.f["_message_last_time"] = SReal(z3.Real(c.fresh_name("L_after_resend")))
+        r2 = c.fresh_int("role_after_resend")
+        c.assume(And(r2 >= 0, r2 <= 2))
+        conn.f["_connection_role"] = SEnum(CR, r2.t)
+    outcome = ("raise", _ExcName("AssertionError")) if fails else ("ret", None)
+    post = sc.eview(I, conn, outcome)
+    for n, cl in resend_kind_clauses(kind, pre, post, m, k0):
+        if n in RESEND_STRUCTURAL:
+            if isinstance(cl, bool):
+                if not cl:
+                    raise AssertionError(f"contract_process_resend: effect of kind {kind} contradicts clause {n}")
+            else:
+                c.site_obligs.append((f"resend_contract.effect_satisfies.{kind}.{n}", cl, len(c.pc)))
+            continue
+        if n not in needs:
+            continue
+        if isinstance(cl, bool):
+            if not cl:
+                raise AssertionError(f"contract_process_resend: effect of kind {kind} contradicts clause {n}")
+            continue
+        if n in assigned:
+            # pinned by assignment above: must already hold (an obligation of the calling task, not an assumption)
+            c.site_obligs.append((f"resend_contract.effect_satisfies.{kind}.{n}", cl, len(c.pc)))
+        else:
+            c.assume(cl)
+    if fails:
+        I.raise_("AssertionError")
     return None
 
 
-def pm_cfg():
-    return sc.session_cfg(extra_contracts={CONN + "._process_resend": contract_process_resend})
+class _ExcName:
+    def __init__(self, n):
+        self._n = n
+
+    def name(self):
+        return self._n
+
+
+def pm_cfg(needs=None):
+    import os
+    if needs is None:
+        needs = RESEND_ALL
+    drop = os.environ.get("RESEND_NEEDS_DROP")  # experiment switch of tools/resend_needs.py (never set by a check)
+    if drop:
+        needs = frozenset(needs) - set(drop.split(","))
+    return sc.session_cfg(extra_contracts={CONN + "._process_resend": make_resend_contract(needs)})
 
 
 def inv_clauses(v, k0=None, with_i2=True):
